@@ -36,6 +36,8 @@ declare -A ALSO=(
   [C13-multipart-batch-hasnext-any]="C12"
   [C02-no-variables-key-skips-coercion]="C03"
   [C17-prune-skip-object-resolution-shadowed-arg]="C19"
+  [C08-deferred-fieldset-window-overwrites-next-key]="C13"
+  [C15-last-parameter-mutator-wins]="C03"
 )
 echo "# Seeded changes vs. the checks ($tier tier, $(date -u +%FT%TZ), /repo $(git -C /repo log --format=%h -1))" > $out
 echo >> $out
